@@ -23,6 +23,9 @@ class Verifier(Exec):
         self.specfun_axioms = set()
         self.pending_specfun = []
         self.unfolding = 0
+        self.conc_done = set()
+        self.inline_returns = None
+        self.live_pred = {}
         self.cut_pcs = []
         self.cut_reason = ''
         self.expand_small_quants = False
@@ -836,6 +839,8 @@ class Verifier(Exec):
             if callee == 'ssa:deferstack':
                 return Opaque(ZERO, ins['type'])
             spec = self.find_spec(callee)
+            if self.opts.get('inline') and callee in self.prog.funcs and not (spec is not None and spec.trusted):
+                return self.inline_call(st, ins, callee, args, fv.bindings)
             if spec is None:
                 return self.unknown_call(st, ins, callee)
             return self.contract_call(st, ins, callee, spec, args, fv.bindings)
@@ -932,6 +937,70 @@ class Verifier(Exec):
                 self.ctx.assume(implies(st.pc, eq(r, self.pure_app(pre_state, callee, args, i, r.sort))))
         self.trusted.add('%s is deterministic (pure): results are a function of the argument values' % short_fn(callee))
 
+    def inline_call(self, st, ins, callee, args, bindings):
+        """bounded mode: execute the callee's (unrolled) body instead of using its contract"""
+        depth = self.opts.get('depth', 0)
+        if depth > 12:
+            raise Unsupported('inline depth exceeded at %s' % callee)
+        opts = dict(self.opts)
+        opts['shape'] = None
+        opts['unroll'] = {}
+        opts['depth'] = depth + 1
+        sub_ = Verifier(self.prog, self.specs, callee, opts, resolver=self.resolver)
+        sub_.ctx = self.ctx
+        sub_.spec = None
+        sub_.alloc0 = self.alloc0
+        sub_.old = self.old
+        sub_.old_env = None
+        sub_.writable = None
+        sub_.track_init = self.track_init
+        sub_.init_types = self.init_types
+        sub_.wrap_types = self.wrap_types | set(w_ for s_ in ([self.find_spec(callee)] if self.find_spec(callee) else []) for x in s_.opts.get('wrap', []) for w_ in x.replace(',', ' ').split())
+        sub_.expand_small_quants = True
+        sub_.sf_memo = self.sf_memo
+        sub_.inline_returns = []
+        sub_.trusted = self.trusted
+        fn = sub_.fn
+        s2 = State()
+        s2.pc = st.pc
+        s2.heap = st.heap
+        s2.alloc = st.alloc
+        s2.ghost = st.ghost
+        for p, a in zip(fn['params'], args):
+            s2.regs['param:' + p['name']] = a
+            sub_.param_vals[p['name']] = a
+        for p, b in zip(fn['freevars'], bindings):
+            s2.regs['free:' + p['name']] = b
+        saved_name = self.ctx.fname
+        self.ctx.fname = saved_name.split('>')[0] + '>' + short_fn(callee)
+        try:
+            sub_.exec_blocks(s2)
+        finally:
+            self.ctx.fname = saved_name
+        rets = sub_.inline_returns
+        if not rets:
+            st.pc = FALSE
+            return self.zero(ins['type']) if ins.get('type') and self.kind(ins['type']) != 'tuple' else None
+        conds = [s.pc for s, v in rets]
+        if len(rets) == 1:
+            ms, mv = rets[0]
+            st.pc, st.heap, st.alloc, st.ghost = ms.pc, ms.heap, ms.alloc, ms.ghost
+            return mv
+        st.pc = self.ctx.name('pcret', or_(*conds))
+        hk = set()
+        for s, v in rets:
+            hk |= set(s.heap)
+        nh = {}
+        for k in hk:
+            vals = [s.heap.get(k) if s.heap.get(k) is not None else self.heap_get(s, k, None) for s, v in rets]
+            nh[k] = self.merge_values(conds, vals, 'H:' + k)
+        st.heap = nh
+        st.alloc = self.merge_values(conds, [s.alloc for s, v in rets], 'alloc')
+        vals = [v for s, v in rets]
+        if vals[0] is None:
+            return None
+        return self.merge_values(conds, vals, 'ret')
+
     def bound_new_addrs(self, v, tid, st):
         """addresses returned by a callee are allocated (< alloc after the call)"""
         c = self.ctx
@@ -1026,6 +1095,8 @@ class Verifier(Exec):
         name = self.hs_name(e)
         h = self.heap_get(st, name, self.hs_sort(e))
         k = const('k!', INT)
+        if self.opts.get('ground'):
+            return self.ground_append(st, s, t, n, fits, e, name, h)
         # in-place branch: elements [s.off+s.len, s.off+n) of s.arr overwritten with t's elements (memmove semantics)
         na = self.new_addr(st, 'app')
         src_inner = select(h, t.arr)
@@ -1053,6 +1124,43 @@ class Verifier(Exec):
             st.heap[iname] = ite(fits, store(ih, s.arr, ipi), store(ih, na, constarr(ARR_IB, TRUE)))
         return SliceV(self.ctx.name('app.arr', ite(fits, s.arr, na)), self.ctx.name('app.off', ite(fits, s.off, ZERO)), n, self.ctx.name('app.cap', ite(fits, s.cap, newcap)), e)
 
+    def ground_append(self, st, s, t, n, fits, e, name, h):
+        """bounded mode: append as explicit element stores (no quantified array definitions)"""
+        qmax = self.opts.get('qmax', 8)
+        tl = t.len.val if t.len.is_int() else qmax
+        sl = s.len.val if s.len.is_int() else qmax
+        if not t.len.is_int():
+            self.oblige(st, 'qbound', 'append', le(t.len, I(tl)), {'clause': 'append length within the bounded-mode expansion limit'})
+        if not s.len.is_int():
+            self.oblige(st, 'qbound', 'append', le(s.len, I(sl)), {'clause': 'append length within the bounded-mode expansion limit'})
+        na = self.new_addr(st, 'app')
+        src_inner = select(h, t.arr)
+        old_inner = select(h, s.arr)
+        zero = FALSE if self.is_bool(e) else ZERO
+        # in place
+        ip = old_inner
+        for j in range(tl):
+            di = add(s.off, s.len, I(j))
+            ip = store(ip, di, ite(lt(I(j), t.len), select(src_inner, add(t.off, I(j))), select(old_inner, di)))
+        # fresh array
+        fr = constarr(arr(self.sort_of(e)), zero)
+        for j in range(sl):
+            fr = store(fr, I(j), ite(lt(I(j), s.len), select(old_inner, add(s.off, I(j))), zero))
+        for j in range(tl):
+            fr = store(fr, add(s.len, I(j)), ite(lt(I(j), t.len), select(src_inner, add(t.off, I(j))), zero))
+        newcap = self.ctx.fresh('appcap', INT)
+        self.ctx.assume(and_(le(n, newcap), le(newcap, I(MAXLEN))))
+        st.heap[name] = ite(fits, store(h, s.arr, ip), store(h, na, fr))
+        if self.track_init:
+            iname = 'INIT:' + self.elem_key(e)
+            ih = self.heap_get(st, iname, arr(arr(BOOL)))
+            ii = select(ih, s.arr)
+            for j in range(tl):
+                di = add(s.off, s.len, I(j))
+                ii = store(ii, di, or_(lt(I(j), t.len), select(select(ih, s.arr), di)))
+            st.heap[iname] = ite(fits, store(ih, s.arr, ii), store(ih, na, constarr(ARR_IB, TRUE)))
+        return SliceV(self.ctx.name('app.arr', ite(fits, s.arr, na)), self.ctx.name('app.off', ite(fits, s.off, ZERO)), n, self.ctx.name('app.cap', ite(fits, s.cap, newcap)), e)
+
     def do_append_agg(self, st, ins, s, t, n, fits):
         raise Unsupported('append of aggregate elements')
 
@@ -1066,6 +1174,24 @@ class Verifier(Exec):
         n = self.ctx.name('copyn', ite(le(d.len, s.len), d.len, s.len))
         name = self.hs_name(e)
         h = self.heap_get(st, name, self.hs_sort(e))
+        if self.opts.get('ground'):
+            maxn = n.val if n.is_int() else self.opts.get('qmax', 8)
+            if not n.is_int():
+                self.oblige(st, 'qbound', 'copy', le(n, I(maxn)), {'clause': 'copy length within the bounded-mode expansion limit'})
+            src_inner = select(h, s.arr)
+            inner = select(h, d.arr)
+            ih = self.heap_get(st, 'INIT:' + self.elem_key(e), arr(arr(BOOL))) if self.track_init else None
+            iinner = select(ih, d.arr) if ih is not None else None
+            for j in range(maxn):
+                g_ = lt(I(j), n)
+                di = add(d.off, I(j))
+                inner = store(inner, di, ite(g_, select(src_inner, add(s.off, I(j))), select(select(h, d.arr), di)))
+                if ih is not None:
+                    iinner = store(iinner, di, ite(g_, select(select(ih, s.arr), add(s.off, I(j))), select(select(ih, d.arr), di)))
+            st.heap[name] = store(h, d.arr, inner)
+            if ih is not None:
+                st.heap['INIT:' + self.elem_key(e)] = store(ih, d.arr, iinner)
+            return n
         k = const('k!', INT)
         src_inner = select(h, s.arr)
         old_inner = select(h, d.arr)
@@ -1155,6 +1281,15 @@ class Verifier(Exec):
         elif op == 'Store':
             a = self.resolve_ptr(st, self.val(st, ins['addr']), 'store')
             v = self.val(st, ins['val'])
+            conc = self.opts.get('concretize')
+            if conc and a[0] == 'cell' and self.opts.get('depth', 0) == 0 and isinstance(v, T) and v.sort == INT:
+                cname = self.cellinfo[a[1]][0]
+                if cname in conc and (a[1], 'done') not in self.conc_done:
+                    # bounded mode case split: this run covers the case where the stored value equals the given constant
+                    self.conc_done.add((a[1], 'done'))
+                    cv = I(conc[cname])
+                    st.pc = self.ctx.name('pcsplit', and_(st.pc, eq(v, cv)))
+                    v = cv
             if isinstance(v, PtrV) and v.term is None and a[0] != 'cell':
                 v = self.ptr_term(st, v)
             self.store(st, a, v)
@@ -1303,6 +1438,10 @@ class Verifier(Exec):
             v = self.fresh_value('fv:' + p['name'], p['type'])
             st.regs['free:' + p['name']] = v
         spec = self.spec
+        shape = self.opts.get('shape')
+        if shape:
+            self.expand_small_quants = True
+            self.apply_shape(st, shape)
         if self.track_init and spec:
             for t in spec.opts.get('track', []):
                 for w in t.replace(',', ' ').split():
@@ -1363,12 +1502,18 @@ class Verifier(Exec):
             self.loop_writes = [self.loopctx[h][4] for h, lp in cfg.loops.items() if b in lp.body and h in self.loopctx]
             self.exec_block(b, st, out, isback)
 
+    def phi_stale(self, b, ins, st):
+        return b in self.live_pred
+
     def merge_states(self, b, ins_):
         blk = self.cfg.blocks[b]
         phis = [i for i in blk['instrs'] if i['op'] == 'Phi']
         preds = self.cfg.preds[b]
-        if len(ins_) == 1 and not phis:
+        self.live_pred.pop(b, None)
+        if len(ins_) == 1:
             s = ins_[0][1].copy()
+            if phis:
+                self.live_pred[b] = ins_[0][0]
             return s
         conds = [s.pc for _, s in ins_]
         pc = self.ctx.name('pc%d' % b, or_(*conds))
@@ -1383,6 +1528,9 @@ class Verifier(Exec):
             keys |= set(s.regs)
         for k in keys:
             vals = [s.regs.get(k) for _, s in ins_]
+            if all(v is None for v in vals):
+                st.regs[k] = None
+                continue
             if any(v is None for v in vals):
                 # defined on some paths only: keep one (use is dominated by def on those paths)
                 vs = [v for v in vals if v is not None]
@@ -1430,7 +1578,10 @@ class Verifier(Exec):
             vals = []
             cs = []
             for p, s in ins_:
-                idx = preds.index(p)
+                if 'origpreds' in blk:
+                    idx = blk['origpreds'].index(self.cfg.blocks[p]['orig'])
+                else:
+                    idx = preds.index(p)
                 vals.append(self.val(s, ph['edges'][idx]))
                 cs.append(s.pc)
             st.regs[ph['name']] = self.merge_values(cs, vals, ph['name'])
@@ -1445,10 +1596,16 @@ class Verifier(Exec):
                 self.cut_pcs.append(st.pc)
                 return
             if op == 'Phi':
-                if len(self.cfg.preds[b]) == 1 or ins['name'] not in st.regs:
-                    # single predecessor: value of the only edge
-                    if ins['name'] not in st.regs:
-                        st.regs[ins['name']] = self.val(st, ins['edges'][0])
+                if ins['name'] not in st.regs or self.phi_stale(b, ins, st):
+                    # single (live) predecessor: value of that edge
+                    p_ = self.live_pred.get(b)
+                    if p_ is None:
+                        p_ = self.cfg.preds[b][0]
+                    if 'origpreds' in blk:
+                        idx_ = blk['origpreds'].index(self.cfg.blocks[p_]['orig'])
+                    else:
+                        idx_ = self.cfg.preds[b].index(p_)
+                    st.regs[ins['name']] = self.val(st, ins['edges'][idx_])
                 continue
             if op == 'If':
                 cnd = self.val(st, ins['cond'])
@@ -1467,6 +1624,10 @@ class Verifier(Exec):
                 self.cur_line = ins.get('line') or self.cur_line
                 self.cur_detail = 'panic'
                 self.oblige(st, 'panic', 'explicit', FALSE)
+                return
+            if op == 'Unwind':
+                self.cur_detail = 'unwind'
+                self.oblige(st, 'unwind', 'bound', FALSE, {'clause': 'loop bound of the bounded check is sufficient'})
                 return
             self.step(st, ins, blk)
 
@@ -1643,10 +1804,57 @@ class Verifier(Exec):
         self.lemmas_used = getattr(self, 'lemmas_used', set())
         self.lemmas_used.add(lem.name)
 
+    def apply_shape(self, st, shape):
+        """bounded mode: make the sizes named by the shape concrete (contents stay symbolic)"""
+        c = self.ctx
+
+        def setfield(stid, p, path, val, sort=INT):
+            name = 'HF:%s.%s' % (self.tname(stid), path)
+            h = self.heap_get(st, name, arr(sort))
+            st.heap[name] = store(h, p, val)
+        for p in self.fn['params']:
+            n = p['name']
+            if n not in shape:
+                continue
+            sh = shape[n]
+            v = st.regs['param:' + n]
+            if isinstance(v, T):
+                nv = B(bool(sh)) if v.sort == BOOL else I(int(sh))
+            elif isinstance(v, SliceV):
+                nv = SliceV(v.arr, ZERO, I(sh['len']), I(sh.get('cap', sh['len'])), v.elem)
+                c.assume(lt(ZERO, v.arr))
+            elif isinstance(v, PtrV):
+                if sh is None:
+                    nv = PtrV(ZERO, v.elem)
+                else:
+                    nv = v
+                    c.assume(lt(ZERO, v.term))
+                    for fname_, fval in sh.items():
+                        f = [f_ for f_ in self.struct_fields(v.elem) if f_['name'] == fname_][0]
+                        if self.kind(f['type']) == 'slice':
+                            a = c.fresh('shape:%s.%s.arr' % (n, fname_), INT)
+                            c.assume(and_(lt(ZERO, a), lt(a, self.alloc0), ne(a, v.term)))
+                            setfield(v.elem, v.term, fname_ + '.arr', a)
+                            setfield(v.elem, v.term, fname_ + '.off', ZERO)
+                            setfield(v.elem, v.term, fname_ + '.len', I(fval['len']))
+                            setfield(v.elem, v.term, fname_ + '.cap', I(fval.get('cap', fval['len'])))
+                        elif self.is_bool(f['type']):
+                            setfield(v.elem, v.term, fname_, B(bool(fval)), BOOL)
+                        else:
+                            setfield(v.elem, v.term, fname_, I(int(fval)))
+            else:
+                raise Unsupported('shape for %r' % (v,))
+            st.regs['param:' + n] = nv
+            self.param_vals[n] = nv
+
     # ------------------------------------------------------------------ returns
     def do_return(self, st, ins):
         self.cur_detail = 'return'
         vals = [self.val(st, r) for r in ins['results']]
+        if getattr(self, 'inline_returns', None) is not None:
+            rv = None if not vals else (vals[0] if len(vals) == 1 else TupleV(vals))
+            self.inline_returns.append((st, rv))
+            return
         idx = self.ret_count
         self.ret_count += 1
         self.returns.append((st.pc, ins.get('line')))
@@ -1672,6 +1880,11 @@ class Verifier(Exec):
             ev = SpecEval(self, st, env, self.old, cl.src)
             t = ev.boolean(cl.expr)
             self.oblige(st, 'post', '%d@ret%d' % (i, idx), t, {'clause': cl.text, 'results': vals}, cl.props)
+        if self.opts.get('shape') is not None:
+            for i, cl in enumerate(getattr(spec, 'bensures', [])):
+                ev = SpecEval(self, st, env, self.old, cl.src)
+                t = ev.boolean(cl.expr)
+                self.oblige(st, 'bpost', '%d@ret%d' % (i, idx), t, {'clause': cl.text, 'results': vals}, cl.props)
 
 
 def lemma_function(pkg, name):
